@@ -1,7 +1,182 @@
-"""C06 part (iii): solver / integrator / data-driven routines called on live objects (filled in with C07-C18)."""
-WORKLOADS = []
-REQUIRED = []
+"""C06 part (iii): solver / integrator / data-driven routines called on live pool objects (initial guesses, operators,
+right-hand sides, previous values, snapshot tensors, list-valued guesses); after every call and after in-place
+consumers applied to the results, every live object that is not the declared target must be unchanged."""
+import contextlib
+import importlib
+import io
+
+import numpy as np
+
+from .. import gen, probe
+from ..drive import call
+from ..shard import Workload
+
+P = 'C06'
+M = {}
 
 
 def setup(ctx):
-    pass
+    from .. import monitors_sle, monitors_evp, monitors_ode, monitors_regression, monitors_tdmd, monitors_tedmd, monitors_sampling, monitors_transform
+    M['tt'] = importlib.import_module('scikit_tt.tensor_train')
+    M['sle'] = monitors_sle.install()
+    M['evp'] = monitors_evp.install()
+    M['ode'] = monitors_ode.install()
+    monitors_ode.install_splitting()
+    monitors_ode.install_tdvp()
+    monitors_transform.install()
+    M['reg'] = monitors_regression.install()
+    M['tdmd'] = monitors_tdmd.install()
+    M['tedmd'] = monitors_tedmd.install()
+    M['qc'] = monitors_sampling.install()
+    M['tdt'] = importlib.import_module('scikit_tt.data_driven.transform')
+
+
+def _consume(pool, rng, objs):
+    from . import c06
+    for t in objs:
+        if isinstance(t, M['tt'].TT) and any(it[0] is t for it in pool.items):
+            fn = [c06.c_ortho_left, c06.c_ortho_right, c06.c_ortho, c06.c_ortho_trunc][int(rng.integers(0, 4))]
+            c06.step_consumer(pool, rng, fn, target=t)
+
+
+def w_solver_pool(ctx, rng, idx):
+    from . import c06
+    tt, sle, evp, ode = M['tt'], M['sle'], M['evp'], M['ode']
+    d = int(rng.integers(2, 4))
+    dims = [int(rng.integers(1, 4)) for _ in range(d)]
+    if int(np.prod(dims)) == 1:
+        dims[0] = 2
+    cplx = bool(rng.integers(0, 2))
+    pool = c06.Pool(ctx)
+    with probe.oracle():
+        A = gen.hermitian_tt(rng, dims, 2, cplx, hpd=True)
+        H = gen.hermitian_tt(rng, dims, 2, cplx)
+        H = (1.0 / max(H.norm(), 1e-12)) * H
+        b = gen.rand_tt(rng, dims, [1] * d, gen.rand_ranks(rng, d, 2, p_one=0.5), cplx)
+        g = gen.rand_tt(rng, dims, [1] * d, gen.feasible_ranks(dims, [1] * d, gen.rand_ranks(rng, d, 2, p_one=0.5)), cplx)
+        go = tt.TT(gen.right_orthonormal_cores(gen.rand_cores(rng, dims, [1] * d, gen.feasible_ranks(dims, [1] * d, [1] + [2] * (d - 1) + [1]), cplx)))
+        gm = gen.rand_tt(rng, dims, [1] * d, gen.max_ranks(dims, [1] * d), cplx)
+    for o, n in ((A, 'A'), (H, 'H'), (b, 'b'), (g, 'g'), (go, 'go'), (gm, 'gm')):
+        pool.add(o, 'init#' + n)
+    refus = (np.linalg.LinAlgError,)
+    kind = idx % 5
+    new = []
+
+    def step(name, fn, *a, **kw):
+        ok, r = call(name, fn, *a, prop=P, refusals=refus + (IndexError,) if name == 'ode.tdvp' else refus, **kw)
+        pool.history.append(name)
+        pool.audit(name)
+        return r if ok else None
+    if kind == 0:
+        x = step('sle.als', sle.als, A, g, b, repeats=int(rng.integers(1, 3)), solver=['solve', 'lu'][int(rng.integers(0, 2))])
+        y = step('sle.mals', sle.mals, A, g, b, repeats=1, threshold=1e-12)
+        new = [x, y]
+    elif kind == 1:
+        micro = min(go.ranks[i] * dims[i] * go.ranks[i + 1] for i in range(d))
+        r = step('evp.als', evp.als, H, go, number_ev=2 if micro >= 2 else 1, repeats=2, solver='eigh')
+        if r is not None and micro < 2:
+            r = (r[0], [r[1]], r[2])
+        if r is not None:
+            new = list(r[1])
+        r = step('evp.als', evp.als, H, go, previous=[go], shift=0.5, solver='eigh')
+        if r is not None:
+            new.append(r[1])
+        r = step('evp.power_method', evp.power_method, A, gm, repeats=3, sigma=0.3)
+        if r is not None:
+            new.append(r[1])
+    elif kind == 2:
+        with probe.oracle():
+            Hs = (0.3 / max(H.norm(), 1e-12)) * H
+        pool.add(Hs, 'init#Hs')
+        for name, fn, args, kw in (('ode.explicit_euler', ode.explicit_euler, (Hs, gm, [0.1, 0.2]), dict(normalize=0, progress=False)),
+                                   ('ode.implicit_euler', ode.implicit_euler, (Hs, gm, gm, [0.1]), dict(normalize=0, progress=False)),
+                                   ('ode.trapezoidal_rule', ode.trapezoidal_rule, (Hs, gm, gm, [0.1]), dict(normalize=2, progress=False, tt_solver='mals')),
+                                   ('ode.hod', ode.hod, (Hs, gm, 0.1, 2), dict(previous_value=g + g, normalize=0, progress=False, threshold=1e-12)),
+                                   ('ode.hod', ode.hod, (Hs, gm, 0.1, 2), dict(previous_value=b, normalize=0, progress=False, max_rank=1))):
+            if 'previous_value' in kw:
+                pool.add(kw['previous_value'], 'init#prev')
+            r = step(name, fn, *args, **kw)
+            if r is not None:
+                ctx.check(name, 'initial_state_heads_trajectory_by_identity', r[0] is args[1], prop=P)
+                new += list(r[1:])
+    elif kind == 3:
+        r = step('ode.tdvp1site', ode.tdvp1site, H, go, 0.05, 2)
+        if r is not None:
+            new += list(r[1:])
+        r = step('ode.tdvp2site', ode.tdvp2site, H, go, 0.05, 1, threshold=1e-12, max_rank=[2, 50][int(rng.integers(0, 2))])
+        if r is not None:
+            new += list(r[1:])
+        step('ode.tdvp', ode.tdvp, H, go, 0.05, 1)
+        with probe.oracle():
+            gu = (1.0 / gm.norm()) * gm
+        pool.add(gu, 'init#gu')
+        r = step('ode.krylov', ode.krylov, H, gu, int(rng.integers(1, 4)), 0.1)
+        new.append(r)
+        m = dims[0]
+        if all(x == m for x in dims):
+            S = gen.randn(rng, (m, m), cplx)
+            L, Mm = gen.randn(rng, (m, m, 1), cplx), gen.randn(rng, (1, m, m), cplx)
+            r = step('ode.strang_splitting', ode.strang_splitting, S, L, np.eye(m), Mm, go, 0.05, 2)
+            if r is not None:
+                ctx.check('ode.strang_splitting', 'initial_state_heads_trajectory_by_identity', r[0] is go, prop=P)
+                new += list(r[1:])
+    else:
+        reg, tdmd, tedmd, tdt, qc = M['reg'], M['tdmd'], M['tedmd'], M['tdt'], M['qc']
+        dd, m = int(rng.integers(2, 4)), int(rng.integers(3, 7))
+        x = rng.uniform(-1, 1, size=(dd, m))
+        y = rng.standard_normal((2, m))
+        bl = [[tdt.ConstantFunction(0), tdt.Identity(i), tdt.Monomial(i, 2)] for i in range(dd)]
+        with probe.oracle():
+            g1 = gen.rand_tt(rng, [3] * dd, [1] * dd, [1] + [1] * (dd - 1) + [1])  # rank-1 bonds: LAPACK works in place on its views
+            g2 = gen.rand_tt(rng, [3] * dd, [1] * dd, [1] + [2] * (dd - 1) + [1])
+            glist = [tt.TT([c.copy() for c in g1.cores]), tt.TT([c.copy() for c in g2.cores])]
+        for o, n in ((g1, 'g1'), (g2, 'g2'), (glist[0], 'gl0'), (glist[1], 'gl1')):
+            pool.add(o, 'init#' + n)
+        r = step('regression.arr', reg.arr, x, y, bl, g1, repeats=2, rcond=1e-10, progress=False)
+        new += list(r or [])
+        r = step('regression.arr', reg.arr, x, y, bl, glist, repeats=1, rcond=1e-10, progress=False)
+        new += list(r or [])
+        nd = int(rng.integers(1, 3))
+        sp = [int(rng.integers(1, 4)) for _ in range(nd)]
+        Z = rng.standard_normal((int(np.prod(sp)), 2)) @ rng.standard_normal((2, m + 1))
+        with probe.oracle():
+            xt = tt.TT(Z[:, :-1].reshape(sp + [m] + [1] * (nd + 1)))
+            yt = tt.TT(Z[:, 1:].reshape(sp + [m] + [1] * (nd + 1)))
+        pool.add(xt, 'init#xt')
+        pool.add(yt, 'init#yt')
+        r = step('tdmd.tdmd_exact', tdmd.tdmd_exact, xt, yt, threshold=1e-10)
+        if r is not None:
+            new.append(r[1])
+        r = step('tdmd.tdmd_standard', tdmd.tdmd_standard, xt, yt, threshold=1e-10)
+        if r is not None:
+            new.append(r[1])
+        r = step('tedmd.amuset_hosvd', tedmd.amuset_hosvd, x, [np.arange(0, m - 1), np.arange(0, m - 2)], [np.arange(1, m), np.arange(2, m)], bl, threshold=1e-8)
+        if r is not None:
+            new += list(r[1])
+        r = step('tedmd.amuset_hosvd', tedmd.amuset_hosvd, x, np.arange(0, m - 1), np.arange(1, m), bl, threshold=1e-8, ef_tf=True, st_tf=True)
+        if r is not None:
+            new += [r[1], r[4]]
+        r = step('tedmd.amuset_hocur', tedmd.amuset_hocur, x, [np.arange(0, m - 1), np.arange(0, m - 2)], [np.arange(1, m), np.arange(2, m)], bl, multiplier=6)
+        if r is not None:
+            new += list(r[1])
+        n = int(rng.integers(2, 5))
+        with probe.oracle():
+            psi = tt.TT(gen.right_orthonormal_cores(gen.rand_cores(rng, [2] * n, [1] * n, gen.feasible_ranks([2] * n, [1] * n, [1] + [2] * (n - 1) + [1]), True)))
+        pool.add(psi, 'init#psi')
+        step('quantum_computation.sampling', qc.sampling, psi, sorted(int(i) for i in rng.choice(n, size=int(rng.integers(1, n + 1)), replace=False)), 20)
+    results = [t for t in new if isinstance(t, tt.TT)]
+    for i, t in enumerate(results):
+        if len(pool.items) < 16:
+            pool.add(t, 'result#%d' % i)
+    _consume(pool, rng, results)
+    _consume(pool, rng, [g, b, go])
+    ctx.describe({'solver_pool_kind': kind, 'dims': dims, 'complex': cplx, 'history': pool.history})
+    ctx.sig('solver_pool', kind, tuple(pool.history[:5]))
+    if idx < 5:
+        ctx.sample({'workload': 'solver_pool', 'kind': kind, 'dims': dims, 'history': pool.history, 'live_objects': [it[1] for it in pool.items]})
+
+
+WORKLOADS = [Workload('solver_pool', w_solver_pool, 100, 3000)]
+REQUIRED = ['C06|sle.als:argument_unchanged', 'C06|evp.als:argument_unchanged', 'C06|ode.hod:argument_unchanged', 'C06|ode.tdvp1site:argument_unchanged',
+            'C06|regression.arr:argument_unchanged', 'C06|tdmd.tdmd_exact:argument_unchanged', 'C06|tedmd.amuset_hosvd:returned_tt_consistent',
+            'C06|quantum_computation.sampling:argument_unchanged', 'C06|ode.hod:initial_state_heads_trajectory_by_identity']
